@@ -76,11 +76,10 @@ def run_property(prop, tier, only_units=None):
     work = tempfile.mkdtemp(prefix='noir-verif.', dir=scratch_root)
     results = []
     try:
-        for u in entry['units']:
-            if tier == 'quick' and u.get('tier', 'quick') != 'quick':
-                continue
-            if only_units and u['name'] not in only_units:
-                continue
+        todo = [u for u in entry['units']
+                if not (tier == 'quick' and u.get('tier', 'quick') != 'quick') and not (only_units and u['name'] not in only_units)]
+
+        def one(u):
             if u['engine'] == 'verus':
                 r = vx.run_unit(os.path.join(VERIF, 'contracts', u['name']), REPO, os.path.join(work, 'verus'),
                                 rlimit=u.get('rlimit'), timeout=u.get('timeout', 900))
@@ -107,7 +106,12 @@ def run_property(prop, tier, only_units=None):
                 keep = os.path.join(VERIF, 'replays', 'generated')
                 os.makedirs(keep, exist_ok=True)
                 shutil.copy(r['file'], os.path.join(keep, os.path.basename(r['file'])))
-            results.append(r)
+            return r
+
+        # the units of a property are independent: run a few at a time (each Verus run is itself multi-threaded)
+        import concurrent.futures
+        with concurrent.futures.ThreadPoolExecutor(max_workers=int(os.environ.get('VERIF_JOBS', '4'))) as ex:
+            results = list(ex.map(one, todo))
     finally:
         shutil.rmtree(work, ignore_errors=True)
     return results, time.time() - t0
